@@ -174,8 +174,10 @@ def minimise(prop, scn, sig, budget_s=25.0, max_runs=400):
         runs[0] += 1
         return _same(prop, c, sig)
 
+    if hasattr(prop, "minimise"):
+        return prop.minimise(scn, sig, ok), runs[0]
     cur = copy.deepcopy(scn)
-    # 1. ddmin over steps (thread programs handled by prop.shrink_candidates)
+    # 1. ddmin over steps
     n = 2
     steps = cur["steps"]
     while len(steps) >= 2:
@@ -400,7 +402,8 @@ def main(argv=None):
             print("HARNESS-ERROR property=%s replay in fresh interpreter did not reproduce:\n%s\n%s"
                   % (pid, cp.stdout[-2000:], cp.stderr[-2000:]))
             return 2
-        new_violations.append((path, sv, len(small["steps"]), len(scn["steps"]), nruns))
+        size = getattr(prop, "size", lambda x: len(x["steps"]))
+        new_violations.append((path, sv, size(small), size(scn), nruns))
     # known findings listed but not seen are still announced (they are facts about the tree
     # only if seen; so print only the ones seen)
     for kid in sorted(known_seen):
